@@ -24,7 +24,8 @@ fn shown(r: &R) -> (Vec<u8>, VClock<u8>) {
 
 static STOP: std::sync::atomic::AtomicBool = std::sync::atomic::AtomicBool::new(false);
 
-fn rec(reps: Vec<R>, known: Vec<Vec<Op<u8, u8>>>, all: Vec<Op<u8, u8>>, desc: String, depth: usize, next_val: u8, r: &mut Report) {
+/// `known` / `spec` hold the writes AS SPECIFIED (value + the context the writer passed in); `all` holds the ops the crate produced
+fn rec(reps: Vec<R>, known: Vec<Vec<Op<u8, u8>>>, all: Vec<Op<u8, u8>>, spec: Vec<Op<u8, u8>>, desc: String, depth: usize, next_val: u8, r: &mut Report) {
     for (i, reg) in reps.iter().enumerate() {
         let want = maximal(&known[i]);
         let mut want_vals: Vec<u8> = want.iter().map(|x| x.1).collect(); want_vals.sort();
@@ -45,21 +46,31 @@ fn rec(reps: Vec<R>, known: Vec<Vec<Op<u8, u8>>>, all: Vec<Op<u8, u8>>, desc: St
     for i in 0..n {
         let actor = (i + 1) as u8;
         {   // local write with the context of a read
-            let mut r2 = reps.clone(); let mut k2 = known.clone(); let mut a2 = all.clone();
-            let op = r2[i].write(next_val, r2[i].read().derive_add_ctx(actor));
-            r2[i].apply(op.clone()); k2[i].push(op.clone()); a2.push(op);
-            rec(r2, k2, a2, format!("{} r{}:write({})", desc, i, next_val), depth - 1, next_val + 1, r);
+            let mut r2 = reps.clone(); let mut k2 = known.clone(); let mut a2 = all.clone(); let mut s2 = spec.clone();
+            let ctx = r2[i].read().derive_add_ctx(actor);
+            let sp = Op::Put { clock: ctx.clock.clone(), val: next_val };
+            let op = r2[i].write(next_val, ctx);
+            r2[i].apply(op.clone()); k2[i].push(sp.clone()); a2.push(op); s2.push(sp);
+            rec(r2, k2, a2, s2, format!("{} r{}:write({})", desc, i, next_val), depth - 1, next_val + 1, r);
         }
+        for j in 0..n { if i != j {   // a client (fresh actor) reads at r_j and submits its write through r_i, which may lag behind
+            let mut r2 = reps.clone(); let mut k2 = known.clone(); let mut a2 = all.clone(); let mut s2 = spec.clone();
+            let ctx = r2[j].read().derive_add_ctx(100 + next_val);
+            let sp = Op::Put { clock: ctx.clock.clone(), val: next_val };
+            let op = r2[i].write(next_val, ctx);
+            r2[i].apply(op.clone()); k2[i].push(sp.clone()); a2.push(op); s2.push(sp);
+            rec(r2, k2, a2, s2, format!("{} client reads r{}, r{}:write({})", desc, j, i, next_val), depth - 1, next_val + 1, r);
+        } }
         for (j, op) in all.iter().enumerate() {   // deliver anything, any order, duplicates included
             let mut r2 = reps.clone(); let mut k2 = known.clone();
-            r2[i].apply(op.clone()); k2[i].push(op.clone());
-            rec(r2, k2, all.clone(), format!("{} r{}<-op{}", desc, i, j), depth - 1, next_val, r);
+            r2[i].apply(op.clone()); k2[i].push(spec[j].clone());
+            rec(r2, k2, all.clone(), spec.clone(), format!("{} r{}<-op{}", desc, i, j), depth - 1, next_val, r);
         }
         for j in 0..n { if i != j {
             let mut r2 = reps.clone(); let mut k2 = known.clone();
             let other = r2[j].clone(); r2[i].merge(other);
             let kj = k2[j].clone(); k2[i].extend(kj);
-            rec(r2, k2, all.clone(), format!("{} r{}<-merge(r{})", desc, i, j), depth - 1, next_val, r);
+            rec(r2, k2, all.clone(), spec.clone(), format!("{} r{}<-merge(r{})", desc, i, j), depth - 1, next_val, r);
         } }
     }
 }
@@ -68,8 +79,8 @@ pub fn search(r: &mut Report, tier: &str, _seed: u64) {
     let d2 = if tier == "thorough" { 6 } else { 5 };
     let d3 = if tier == "thorough" { 5 } else { 4 };
     r.target = "MVReg (C06 and the MVReg rows of C01-C03, C08, C09, C20): read == causally maximal applied writes; equal knowledge => ==".into();
-    r.bound = format!("all programs of <= {} steps over 2 replicas and <= {} steps over 3 replicas: writes from read contexts, delivery of any generated op in any order with duplicates, merges", d2, d3);
+    r.bound = format!("all programs of <= {} steps over 2 replicas and <= {} steps over 3 replicas: writes from read contexts (local, or read at another replica by a client with a fresh actor), delivery of any generated op in any order with duplicates, merges", d2, d3);
     STOP.store(false, std::sync::atomic::Ordering::Relaxed);
-    rec(vec![R::new(), R::new()], vec![vec![], vec![]], vec![], String::new(), d2, 1, r);
-    if r.failures == 0 { rec(vec![R::new(), R::new(), R::new()], vec![vec![]; 3], vec![], String::new(), d3, 1, r); }
+    rec(vec![R::new(), R::new()], vec![vec![], vec![]], vec![], vec![], String::new(), d2, 1, r);
+    if r.failures == 0 { rec(vec![R::new(), R::new(), R::new()], vec![vec![]; 3], vec![], vec![], String::new(), d3, 1, r); }
 }
